@@ -77,7 +77,10 @@ def _replay(ss, ps, hist):
             cur.resolved = ev["value"]
         else:
             cur = _mk_start(ss, ev["kind"], ev["value"])
-            seqr.set_sequence_start(cur)
+            try:
+                seqr.set_sequence_start(cur)
+            except Exception as e:      # SetStart is always enabled in the model
+                return i, "the update to be accepted", f"{type(e).__name__}: {e}"
     return None
 
 
@@ -119,13 +122,23 @@ def _record(ss, ps, rng, n):
         elif rng.random() < p_set:
             if rng.random() < 0.15:
                 pending = _mk_start(ss, "pending", 0)
-                seqr.set_sequence_start(pending)
-                ev.append({"op": "set", "kind": "pending", "value": 0})
+                try:
+                    seqr.set_sequence_start(pending)
+                    ev.append({"op": "set", "kind": "pending", "value": 0})
+                except Exception as e:      # no action of the model: the trace is rejected at this event
+                    ev.append({"op": "set_raised", "kind": "pending", "value": 0, "exc": type(e).__name__})
+                    break
                 continue
             pending = None
             k2, v2 = rs()
-            seqr.set_sequence_start(_mk_start(ss, k2, v2))
-            ev.append({"op": "set", "kind": k2, "value": v2})
+            try:
+                seqr.set_sequence_start(_mk_start(ss, k2, v2))
+                ev.append({"op": "set", "kind": k2, "value": v2})
+            except MachineryError:
+                raise
+            except Exception as e:
+                ev.append({"op": "set_raised", "kind": k2, "value": v2, "exc": type(e).__name__})
+                break
         else:
             try:
                 ev.append({"op": "next", "ret": seqr.next_sequence()})
